@@ -164,8 +164,8 @@ def c08(tier):
     else:
         cfg = [(1, 2, 5, 7), (1, 3, 4, 7), (2, 1, 4, 2), (2, 2, 3, 2)]
     # preemption inside process with TWO events (one elapsed, one falling due inside the process call)
-    for ops in (((0, 0, 2, 3),) if tier == 'quick' else ((0, 0, 2, 3), (0, 0, 3), (0, 0, 2, 3, 3), (0, 0, 2, 3, 1), (0, 2, 0, 3), (0, 0, 2, 2, 3))):
-        out.append(tmr_inst('tmr_isr3_p2_%s' % ''.join('CDTP'[o] for o in ops), 2, len(ops), 3, ops, tmax=2, weight=5))
+    for ops in (((0, 0, 2, 3), (0, 0, 2, 2, 3)) if tier == 'quick' else ((0, 0, 2, 3), (0, 0, 3), (0, 0, 2, 3, 3), (0, 0, 2, 3, 1), (0, 2, 0, 3), (0, 0, 2, 2, 3))):
+        out.append(tmr_inst('tmr_isr3_p2_%s' % ''.join('CDTP'[o] for o in ops), 2, len(ops), 3, ops, tmax=2, weight=9, cap_quick=700))
     for ops in (((0, 0, 1), (0, 0, 1, 3), (0, 0, 0, 3)) if tier == 'quick' else ((0, 0, 1), (0, 0, 1, 3), (0, 0, 0, 3), (0, 0, 1, 1), (0, 0, 0, 1))):
         out.append(tmr_inst('tmr_isr1_p3_%s' % ''.join('CDTP'[o] for o in ops), 3, len(ops), 1, ops, tmax=3, weight=6))
     for isr, P, K, tmax in cfg:
